@@ -489,3 +489,5 @@ def check(run, prog):
     rule_after_endif(run, prog)              # R-14.8
     from .c14_history import rule_history_append_only
     rule_history_append_only(run, prog)      # R-14.9
+    from .c14_after_endif import rule_before_ifndef
+    rule_before_ifndef(run, prog)            # R-14.10
